@@ -298,6 +298,7 @@ fn smart_case_insensitive(pattern: &str) -> Option<bool> {
 /// The specification of what the user asked for, as an HIR over a line's
 /// content (terminator removed), written from the flag documentation.
 pub fn spec_hir(patterns: &[&str], o: &Opts) -> Result<(Hir, String), String> {
+    // (returns the HIR and the specification's regex text)
     let alts: Vec<String> = patterns
         .iter()
         .map(|p| if o.fixed { format!("(?:{})", regex_syntax::escape(p)) } else { format!("(?:{})", p) })
